@@ -205,6 +205,9 @@ pub enum FaultKind {
     /// a complete envelope whose second element announces more octets than the envelope holds
     /// (30 0c 02 01 02 61 0a + 7 octets); the peer then stays connected and silent
     InnerOverrun,
+    /// an otherwise well-formed response whose messageID is 2^32 + the ID of the first pending
+    /// request (five octets): out of range, hence no LDAPMessage; the peer stays connected
+    WideId,
     /// a response for the first pending request whose LDAPResult has three well-formed optional
     /// elements and then a malformed one (a responseName that is not UTF-8); the peer stays connected
     BadResultTail,
